@@ -356,6 +356,7 @@ func c19Stress(run *vf.Run) {
 	}
 	c19ConcurrentWriter(run, dir)
 	c19Formats(run, dir)
+	c19FormatStable(run)
 	nasty := []string{"plain", "quo\"te", "new\nline", "--abcdefghij-Z--", "back\\slash", "tab\there", "unié\xff", "{\"json\":1}"}
 	G := vf.Pick(run, 8, 16)
 	N := vf.Pick(run, 150, 1500)
@@ -587,4 +588,109 @@ func safeMsgID(m plugintypes.AuditLogMessage) (id int) {
 		return d.ID()
 	}
 	return 0
+}
+
+// ---- law FormatStable (Audit.tla): a formatted record handed to a writer reads the same later ----
+
+type c19QueueWriter struct {
+	f plugintypes.AuditLogFormatter
+}
+
+type c19Queued struct {
+	id   string
+	kept []byte // the bytes as returned by the formatter (not copied)
+	copy string // their content at that moment
+}
+
+var (
+	c19qMu    sync.Mutex
+	c19queue  []c19Queued
+	c19qOnce  sync.Once
+	c19qError string
+)
+
+func (w *c19QueueWriter) Init(c plugintypes.AuditLogConfig) error { w.f = c.Formatter; return nil }
+func (w *c19QueueWriter) Write(al plugintypes.AuditLog) error {
+	if w.f == nil {
+		return nil
+	}
+	b, err := w.f.Format(al)
+	c19qMu.Lock()
+	defer c19qMu.Unlock()
+	if err != nil {
+		c19qError = err.Error()
+		return err
+	}
+	c19queue = append(c19queue, c19Queued{id: al.Transaction().ID(), kept: b, copy: string(b)})
+	return nil
+}
+func (w *c19QueueWriter) Close() error { return nil }
+
+// c19FormatStable: a writer that queues formatted records (a batching / asynchronous writer written against the
+// plugin API) must find every queued record intact and carrying its own transaction id after later transactions
+// have been formatted, sequentially and from several goroutines.
+func c19FormatStable(run *vf.Run) {
+	c19qOnce.Do(func() {
+		plugins.RegisterAuditLogWriter("verifc19q", func() plugintypes.AuditLogWriter { return &c19QueueWriter{} })
+	})
+	for _, format := range []string{"native", "json", "jsonlegacy", "ocsf"} {
+		for _, conc := range []int{1, 8} {
+			c19qMu.Lock()
+			c19queue, c19qError = nil, ""
+			c19qMu.Unlock()
+			text := fmt.Sprintf("SecRuleEngine On\nSecAuditEngine On\nSecAuditLogParts ABHKZ\nSecAuditLogType verifc19q\nSecAuditLogFormat %s\nSecAuditLog /dev/null\nSecRule REQUEST_HEADERS:x-n \"@rx .\" \"id:1,phase:1,pass,log,auditlog,msg:'m %%{MATCHED_VAR}'\"\n", format)
+			w, err := coraza.NewWAF(coraza.NewWAFConfig().WithDirectives(text))
+			if err != nil {
+				run.Inconclusive("FormatStable: configuration rejected (%s): %v", format, err)
+				continue
+			}
+			var wg sync.WaitGroup
+			per := 40
+			for g := 0; g < conc; g++ {
+				wg.Add(1)
+				go func(g int) {
+					defer wg.Done()
+					defer func() { _ = recover() }()
+					for k := 0; k < per; k++ {
+						tx := w.NewTransactionWithID(fmt.Sprintf("tx-%s-%d-%d-%s", format, g, k, strings.Repeat("i", k%7)))
+						tx.AddRequestHeader("X-N", fmt.Sprintf("g%dk%d%s", g, k, strings.Repeat("v", (k*13)%50)))
+						tx.ProcessRequestHeaders()
+						tx.ProcessLogging()
+						_ = tx.Close()
+					}
+				}(g)
+			}
+			wg.Wait()
+			closeAny(w)
+			c19qMu.Lock()
+			q := c19queue
+			c19qMu.Unlock()
+			if len(q) != conc*per {
+				run.Violate(vf.Violation{Signature: "audit:queued-records-count|" + format, What: fmt.Sprintf("%d transactions were logged through a queueing writer (format %s), %d records reached it (%s)", conc*per, format, len(q), c19qError),
+					Replay: map[string]any{"family": "audit-format-stable", "format": format, "goroutines": conc}})
+				continue
+			}
+			for _, r := range q {
+				run.Eval("fmtstable-" + format + r.id)
+				now := string(r.kept)
+				if now != r.copy || !strings.Contains(now, r.id) {
+					mode := "sequential"
+					if conc > 1 {
+						mode = "concurrent"
+					}
+					run.Violate(vf.Violation{Signature: "audit:formatted-record-not-stable|" + format + "+" + mode,
+						What: fmt.Sprintf("format %s, %s transactions: the record the formatter returned for transaction %s read %q when it was handed over and reads %q after later transactions were formatted (a writer that queues records would log another transaction's data)", format, mode, r.id, cut(r.copy, 120), cut(now, 120)),
+						Replay: map[string]any{"family": "audit-format-stable", "format": format, "goroutines": conc, "transaction": r.id}})
+					break
+				}
+			}
+		}
+	}
+}
+
+func cut(s string, n int) string {
+	if len(s) > n {
+		return s[:n] + "..."
+	}
+	return s
 }
